@@ -16,6 +16,19 @@ PROPS = {
                          "Instant::now() replaced by a logical clock argument in the model"],
         "assumptions": ["monotone clock; HashMap/VecDeque behave as an association map / FIFO"],
     },
+    "C03": {
+        "props_module": "Redproxy.Props.C03",
+        "mode": "c03", "model_mode": "codec",
+        "rule": "destinations (hosts of length 0..300 incl. 253..257, byte classes alnum / .:[] / space CR LF TAB DEL / NUL / multi-byte UTF-8 "
+                "incl. Unicode white space, IPv4/IPv6 incl. mapped, zero and 0.0.0.x, ports 0,1,53,80,443,65535,random) through every "
+                "(writer, reader) pair of SOCKS5, SOCKS4/4a, HTTP CONNECT (h11c_connect -> h11c_handshake), RPFM (buffer and segmented "
+                "stream), SOCKS5-UDP header, text form; plus two-hop composition from raw inbound client bytes (non-UTF-8, delimiters); "
+                "a case is non-trivial if the destination is a domain or the writer refused; distinct = distinct case lines",
+        "nontrivial": lambda c, i: (" D:" in c) or ("D:" in i) or i.startswith("err"),
+        "trusted_base": ["hand-written codec models tied to the real writers/readers by exact byte-level correspondence",
+                         "IPv6 socket-address text form is a parameter (table sampled from std::net per case)"],
+        "assumptions": ["std parses the IPv6 text it prints"],
+    },
     "C05": {
         "props_module": "Redproxy.Props.C05",
         "mode": "c05", "model_mode": "codec",
